@@ -209,6 +209,10 @@ def sym_value(ty, name, st):
         return Agg('tuple', [sym_value(_norm_ty(p), '%s_%d' % (name, i), st) for i, p in enumerate(parts)])
     if ty in ('u32', 'u8', 'u16'):
         return z3.BitVec(name, int(ty[1:]))
+    if ty == 'HashVal':
+        return hashval(z3.BitVec(name, 256))
+    if ty in ('TxHash', 'Address'):
+        return Agg(ty, [hashval(z3.BitVec(name, 256))])
     if ty in ('Vec<u8>', 'Bytes', 'bytes::Bytes'):
         return sym_bytes(name, pc)
     if ty == 'Denom':
